@@ -2,6 +2,7 @@ package main
 
 import (
 	"fmt"
+	"go/constant"
 	"go/token"
 	"go/types"
 	"sort"
@@ -554,6 +555,1100 @@ func c07FuncsWithBodies(p *Prog) []*ssa.Function {
 			seen[f] = true
 			out = append(out, f)
 		}
+	}
+	return out
+}
+
+// ------------------------------------------------------------ parent registry --
+//
+// InheritIndex keeps one parentData object per parent id in a registry map; an
+// item inherits labels through the *parentData pointers it holds, and a parent
+// label update reaches the item only through the registered object's child
+// set.  Both break silently when a parent that an item still references is
+// dropped from the registry: a later getOrCreate builds a second object, the
+// label update lands there, and the item keeps pointing at the orphan.
+// c07ParentReg decides the structural conditions that keep "every parent an
+// item references is the registered object, and the item is in its child set":
+//
+//	delete      a registry entry is deleted only under `children == nil` AND
+//	            `labels empty`, both tested on the entry being deleted;
+//	unregister  where a function removes the item from the child set of the
+//	            parents in one list and adds it to those of another (the new
+//	            parents), the removal is guarded by the parent not being among
+//	            the new parents, or the additions happen afterwards;
+//	drop        in such a function a call that can delete the registry entry of
+//	            a parent from the old list is guarded the same way, or comes
+//	            after all additions (so the callee's `children == nil` test sees
+//	            the still-current parents as non-empty);
+//	refs        every *parentData stored into an item's parent list is a
+//	            registry lookup or an object stored into the registry under the
+//	            same key.
+//
+// It is shared by C03 (inherited labels feed policy matching) and C07.
+func c07ParentReg(c *Ctx, p *Prog, rule string) {
+	idxTN, _ := p.LookupObj(c07IdxPkg, "InheritIndex").(*types.TypeName)
+	labelsTN, _ := p.LookupExt(c07ParserPkg, "Labels").(*types.TypeName)
+	if labelsTN == nil {
+		labelsTN, _ = p.LookupObj(c07ParserPkg, "Labels").(*types.TypeName)
+	}
+	if idxTN == nil || labelsTN == nil {
+		c.Lost("labelindex.InheritIndex / parser.Labels")
+	}
+	idxST, _ := idxTN.Type().Underlying().(*types.Struct)
+	labelsI, _ := labelsTN.Type().Underlying().(*types.Interface)
+	if idxST == nil || labelsI == nil {
+		c.Lost("InheritIndex is not a struct / parser.Labels is not an interface")
+	}
+	// item type: the element of the InheritIndex map whose values implement Labels
+	var itemST *types.Struct
+	for i := 0; i < idxST.NumFields(); i++ {
+		if mt, ok := idxST.Field(i).Type().Underlying().(*types.Map); ok && types.Implements(mt.Elem(), labelsI) {
+			if pt, ok := types.Unalias(mt.Elem()).(*types.Pointer); ok {
+				itemST, _ = pt.Elem().Underlying().(*types.Struct)
+			}
+		}
+	}
+	if itemST == nil {
+		c.Lost("InheritIndex item map (values implementing parser.Labels)")
+	}
+	// parents field of the item: []*P
+	var parentsFld *types.Var
+	var parentT *types.Named
+	for i := 0; i < itemST.NumFields(); i++ {
+		sl, ok := itemST.Field(i).Type().Underlying().(*types.Slice)
+		if !ok {
+			continue
+		}
+		pt, ok := types.Unalias(sl.Elem()).(*types.Pointer)
+		if !ok {
+			continue
+		}
+		if n, ok := types.Unalias(pt.Elem()).(*types.Named); ok {
+			if _, isSt := n.Underlying().(*types.Struct); isSt {
+				if parentsFld != nil {
+					c.Lost("item type has more than one []*struct field")
+				}
+				parentsFld, parentT = itemST.Field(i), n
+			}
+		}
+	}
+	if parentsFld == nil {
+		c.Lost("item type has no []*parent field")
+	}
+	isParentPtr := func(t types.Type) bool {
+		pt, ok := types.Unalias(t).(*types.Pointer)
+		return ok && types.Identical(types.Unalias(pt.Elem()), parentT)
+	}
+	// registry: InheritIndex map[..]*P
+	var regFld *types.Var
+	for i := 0; i < idxST.NumFields(); i++ {
+		if mt, ok := idxST.Field(i).Type().Underlying().(*types.Map); ok && isParentPtr(mt.Elem()) {
+			if regFld != nil {
+				c.Lost("more than one InheritIndex map of *%s", parentT.Obj().Name())
+			}
+			regFld = idxST.Field(i)
+		}
+	}
+	if regFld == nil {
+		c.Lost("InheritIndex registry map of *%s", parentT.Obj().Name())
+	}
+	// child set and labels fields of P
+	parentST := parentT.Underlying().(*types.Struct)
+	var childFld, plabelsFld *types.Var
+	for i := 0; i < parentST.NumFields(); i++ {
+		f := parentST.Field(i)
+		switch {
+		case namedTypeName(f.Type()) == "Typed" && strings.HasSuffix(qualTypeName(f.Type()), "libcalico-go/lib/set.Typed"):
+			if childFld != nil {
+				c.Lost("%s has more than one set field", parentT.Obj().Name())
+			}
+			childFld = f
+		case types.Implements(f.Type(), labelsI) || types.Implements(types.NewPointer(f.Type()), labelsI):
+			if plabelsFld != nil {
+				c.Lost("%s has more than one labels field", parentT.Obj().Name())
+			}
+			plabelsFld = f
+		}
+	}
+	if childFld == nil || plabelsFld == nil {
+		c.Lost("%s child-set field (%v) / labels field (%v)", parentT.Obj().Name(), childFld, plabelsFld)
+	}
+	pname := parentT.Obj().Name()
+
+	var funcs []*ssa.Function
+	for _, f := range c07FuncsWithBodies(p) {
+		top := topFn(f)
+		if top.Pkg != nil && top.Pkg.Pkg.Path() == calicoPrefix+c07IdxPkg {
+			funcs = append(funcs, f)
+		}
+	}
+	sort.Slice(funcs, func(i, j int) bool { return fnName(funcs[i]) < fnName(funcs[j]) })
+
+	isRegDelete := func(in ssa.Instruction) (*ssa.CallCommon, bool) {
+		dc, ok := isBuiltinCall(in, "delete")
+		if !ok || fieldVar(dc.Args[0]) != regFld {
+			return nil, false
+		}
+		return dc, true
+	}
+	var dropsVia func(sf *ssa.Function, depth int) bool
+	dropsVia = func(sf *ssa.Function, depth int) bool {
+		if sf == nil || sf.Blocks == nil || depth > 2 {
+			return false
+		}
+		found := false
+		allInstrs(sf, true, func(_ *ssa.Function, in ssa.Instruction) {
+			if _, ok := isRegDelete(in); ok {
+				found = true
+			} else if ci, ok := in.(ssa.CallInstruction); ok && dropsVia(calleeFn(ci.Common()), depth+1) {
+				found = true
+			}
+		})
+		return found
+	}
+
+	var unregistersVia func(sf *ssa.Function, depth int) bool
+	unregistersVia = func(sf *ssa.Function, depth int) bool {
+		if sf == nil || sf.Blocks == nil || depth > 2 || sf.Pkg == nil || sf.Pkg.Pkg.Path() != calicoPrefix+c07IdxPkg {
+			return false
+		}
+		found := false
+		allInstrs(sf, true, func(_ *ssa.Function, in ssa.Instruction) {
+			ci, ok := in.(ssa.CallInstruction)
+			if !ok {
+				return
+			}
+			cc := ci.Common()
+			if c07IsSetMethod(calleeOf(cc), "Discard") && len(cc.Args) == 2 && fieldVar(cc.Args[0]) == childFld {
+				found = true
+			} else if unregistersVia(calleeFn(cc), depth+1) {
+				found = true
+			}
+		})
+		return found
+	}
+
+	// ---- delete: only an entry without children and without labels
+	nDel := 0
+	for _, f := range funcs {
+		allInstrs(f, false, func(fn *ssa.Function, in ssa.Instruction) {
+			dc, ok := isRegDelete(in)
+			if !ok {
+				return
+			}
+			nDel++
+			k := path(dc.Args[1])
+			ofEntry := func(v ssa.Value, fld *types.Var) bool {
+				// v reads field fld of registry[k]
+				for {
+					u, ok := v.(*ssa.UnOp)
+					if !ok || u.Op != token.MUL {
+						break
+					}
+					v = u.X
+				}
+				fa, ok := v.(*ssa.FieldAddr)
+				if !ok || structField(fa.X.Type(), fa.Field) != fld {
+					return false
+				}
+				for _, o := range origins(fa.X, nil) {
+					lk, ok := o.V.(*ssa.Lookup)
+					if !ok || fieldVar(lk.X) != regFld || path(lk.Index) != k {
+						return false
+					}
+				}
+				return true
+			}
+			noChildren := guardedCut(in, anyOf(
+				eqCond(true, func(v ssa.Value) bool { return ofEntry(v, childFld) }, isNilConst),
+				eqCond(true, func(v ssa.Value) bool {
+					cs, ok := condCall(v)
+					return ok && c07IsSetMethod(cs.Callee, "Len") && len(cs.Args()) == 1 && ofEntry(cs.Args()[0], childFld)
+				}, func(v ssa.Value) bool { cv, ok := constOf(v); return ok && cv.ExactString() == "0" })))
+			noLabels := guardedCut(in, anyOf(
+				callCond(true, func(cs CallSite) bool {
+					return cs.Callee != nil && cs.Callee.Name() == "IsNil" && len(cs.Args()) == 1 && ofEntry(cs.Args()[0], plabelsFld)
+				}),
+				eqCond(true, func(v ssa.Value) bool {
+					cs, ok := condCall(v)
+					return ok && cs.Callee != nil && cs.Callee.Name() == "Len" && len(cs.Args()) == 1 && ofEntry(cs.Args()[0], plabelsFld)
+				}, func(v ssa.Value) bool { cv, ok := constOf(v); return ok && cv.ExactString() == "0" })))
+			var missing []string
+			if !noChildren {
+				missing = append(missing, fmt.Sprintf("%s[%s].%s == nil (no item registered)", regFld.Name(), k, childFld.Name()))
+			}
+			if !noLabels {
+				missing = append(missing, fmt.Sprintf("%s[%s].%s being empty", regFld.Name(), k, plabelsFld.Name()))
+			}
+			c.Check(len(missing) == 0, rule+"/delete/"+fnName(fn), p.Pos(in.Pos()),
+				fmt.Sprintf("delete(%s, %s) only when the entry has no children and no labels", regFld.Name(), k),
+				fmt.Sprintf("%s deletes %s[%s] on a path that has not established %s: a parent that still carries labels or registered items is forgotten; the next getOrCreate builds a second, empty object and the items (or later arrivals) never inherit the labels",
+					fnName(fn), regFld.Name(), k, strings.Join(missing, " and ")))
+		})
+	}
+	if nDel == 0 {
+		c.Lost("no delete(%s, ..) in felix/labelindex", regFld.Name())
+	}
+
+	// ---- unregister / drop
+	// elemOf: v is an element of a []*P list (range variable / index expression); returns the list.
+	var elemOf func(v ssa.Value) ssa.Value
+	elemOf = func(v ssa.Value) ssa.Value {
+		switch x := v.(type) {
+		case *ssa.UnOp:
+			if x.Op == token.MUL {
+				if ia, ok := x.X.(*ssa.IndexAddr); ok {
+					return ia.X
+				}
+			}
+		case *ssa.Index:
+			return x.X
+		case *ssa.Extract: // range over map / iterator yields are not lists
+		}
+		return nil
+	}
+	// proj: v (interface wrapping stripped) is an element of a list, or a field of one.
+	type projT struct {
+		list ssa.Value
+		elem ssa.Value
+		fld  *types.Var // nil: the element itself
+	}
+	proj := func(v ssa.Value) *projT {
+		v = c03StripIface(v)
+		if l := elemOf(v); l != nil && isParentPtr(v.Type()) {
+			return &projT{l, v, nil}
+		}
+		if u, ok := v.(*ssa.UnOp); ok && u.Op == token.MUL {
+			if fa, ok := u.X.(*ssa.FieldAddr); ok && isParentPtr(fa.X.Type()) {
+				if l := elemOf(fa.X); l != nil {
+					return &projT{l, fa.X, structField(fa.X.Type(), fa.Field)}
+				}
+			}
+		}
+		return nil
+	}
+	nUnreg, nDrop := 0, 0
+	for _, f := range funcs {
+		// child-set method calls in f
+		type setCall struct {
+			cs   CallSite
+			par  ssa.Value // the *P whose child set is the receiver
+			list ssa.Value
+		}
+		var adds, discards []setCall
+		for _, cs := range callsIn(f, false, func(fn *types.Func) bool { return c07IsSetMethod(fn, "Add", "Discard") }) {
+			if len(cs.Args()) != 2 {
+				continue
+			}
+			recv := cs.Args()[0]
+			u, ok := recv.(*ssa.UnOp)
+			if !ok || u.Op != token.MUL {
+				continue
+			}
+			fa, ok := u.X.(*ssa.FieldAddr)
+			if !ok || structField(fa.X.Type(), fa.Field) != childFld {
+				continue
+			}
+			sc := setCall{cs, fa.X, elemOf(fa.X)}
+			if cs.Callee.Name() == "Add" {
+				adds = append(adds, sc)
+			} else {
+				discards = append(discards, sc)
+			}
+		}
+		// the new-parent lists: those over whose elements the item is registered
+		newLists := map[ssa.Value]bool{}
+		for _, a := range adds {
+			if a.list != nil {
+				newLists[a.list] = true
+			}
+		}
+		// a helper that unregisters, called for a parent taken from a list
+		for _, cs := range callsIn(f, false, func(*types.Func) bool { return true }) {
+			if !unregistersVia(calleeFn(cs.Common()), 1) {
+				continue
+			}
+			for _, a := range cs.Common().Args {
+				if pr := proj(a); pr != nil && pr.fld == nil && !newLists[pr.list] {
+					discards = append(discards, setCall{cs, pr.elem, pr.list})
+				}
+			}
+		}
+		if len(discards) == 0 {
+			continue
+		}
+		// dependsOn: par is in the backward slice of v
+		dependsOn := func(v, par ssa.Value) bool {
+			seen := map[ssa.Value]bool{}
+			var walk func(v ssa.Value, d int) bool
+			walk = func(v ssa.Value, d int) bool {
+				if v == nil || seen[v] || d > 12 {
+					return false
+				}
+				seen[v] = true
+				if v == par {
+					return true
+				}
+				in, ok := v.(ssa.Instruction)
+				if !ok {
+					return false
+				}
+				for _, op := range in.Operands(nil) {
+					if op != nil && *op != nil && walk(*op, d+1) {
+						return true
+					}
+				}
+				return false
+			}
+			return walk(v, 0)
+		}
+		// notAmongNew(target, par): every path to target establishes that par is
+		// not in a new list.  "ok" / "bad" (no such test, or one that cannot work)
+		// / "unknown" (a test on the parent this rule does not understand).
+		notAmongNew := func(target ssa.Instruction, par ssa.Value) (string, string) {
+			verdict, why := "bad", "no membership test of the parent against the new parents guards it"
+			for _, g := range guardsOf(target) {
+				if dependsOn(g.Cond, par) {
+					verdict, why = "unknown", "it is guarded by ("+path(g.Cond)+"), which this rule cannot interpret as a membership test against the new parents"
+				}
+			}
+			for _, g := range callsIn(f, false, func(fn *types.Func) bool { return fn.Name() == "Contains" }) {
+				gi := g.Instr
+				if !guardedCut(target, callCond(false, func(cs CallSite) bool { return cs.Instr == gi })) {
+					continue
+				}
+				args := g.Args()
+				// slices.Contains(newList, par)
+				if g.Callee.Pkg() != nil && g.Callee.Pkg().Path() == "slices" && len(args) == 2 {
+					if newLists[args[0]] && args[1] == par {
+						return "ok", ""
+					}
+					continue
+				}
+				if !c07IsSetMethod(g.Callee, "Contains") || len(args) != 2 {
+					continue
+				}
+				want := proj(args[1])
+				if want == nil || want.elem != par {
+					continue
+				}
+				// the set: a local set.New(), filled only with the same projection of new-list elements, before the test
+				set := args[0]
+				if !c07IsSetCtor(set) {
+					verdict, why = "unknown", "the guarding set is not built locally from the new parents"
+					continue
+				}
+				state, nFill := "ok", 0
+				for _, r := range *set.Referrers() {
+					ci, ok := r.(ssa.CallInstruction)
+					if !ok {
+						if _, dbg := r.(*ssa.DebugRef); !dbg {
+							state, why = "unknown", "the guarding set escapes"
+						}
+						continue
+					}
+					callee := calleeOf(ci.Common())
+					if !c07IsSetMethod(callee) || len(ci.Common().Args) == 0 || ci.Common().Args[0] != set {
+						state, why = "unknown", "the guarding set escapes"
+						continue
+					}
+					if c07SetReadOnly[callee.Name()] {
+						continue
+					}
+					if callee.Name() != "Add" || len(ci.Common().Args) != 2 {
+						state, why = "unknown", fmt.Sprintf("the guarding set is also changed by %s", callee.Name())
+						continue
+					}
+					got := proj(ci.Common().Args[1])
+					switch {
+					case got == nil || !newLists[got.list]:
+						if state == "ok" {
+							state, why = "unknown", fmt.Sprintf("the guarding set is filled with %s, which this rule cannot relate to an element of the new parents", path(ci.Common().Args[1]))
+						}
+					case got.fld != want.fld:
+						name := func(f *types.Var) string {
+							if f == nil {
+								return "the *" + pname + " pointer itself"
+							}
+							return "." + f.Name()
+						}
+						state, why = "bad", fmt.Sprintf("the set of current parents is filled with %s of each new parent but queried with %s of the old parent, so the membership test can never succeed", name(got.fld), name(want.fld))
+					case !(instrReaches(ci, gi) && !instrReaches(gi, ci)):
+						if state == "ok" {
+							state, why = "unknown", "the guarding set is still being filled when it is queried"
+						}
+					default:
+						nFill++
+					}
+				}
+				if state == "ok" && nFill > 0 {
+					return "ok", ""
+				}
+				if state == "ok" {
+					state, why = "bad", "the guarding set is never filled from the new parents"
+				}
+				verdict = state
+				if state == "bad" {
+					return verdict, why
+				}
+			}
+			return verdict, why
+		}
+		before := func(a, b ssa.Instruction) bool { return instrReaches(a, b) && !instrReaches(b, a) }
+		for _, d := range discards {
+			nUnreg++
+			key := rule + "/unregister/" + fnName(f)
+			site := p.Pos(d.cs.Instr.Pos())
+			if len(adds) == 0 {
+				c.Ok(key, site, "%s only unregisters the item (no parent list is registered in the same function)", fnName(f))
+				continue
+			}
+			gv, why := notAmongNew(d.cs.Instr, d.par)
+			g := gv == "ok"
+			readded := false
+			for _, a := range adds {
+				if before(d.cs.Instr, a.cs.Instr) {
+					readded = true
+				}
+			}
+			if !g && !readded && gv == "unknown" {
+				c.Undecided(key, site, "%s removes the item from an old parent's %s: %s", fnName(f), childFld.Name(), why)
+				continue
+			}
+			c.Check(g || readded, key, site,
+				fmt.Sprintf("item removed from %s.%s only for parents not among the new parents (guard: %v) or re-added afterwards (%v)", pname, childFld.Name(), g, readded),
+				fmt.Sprintf("%s removes the item from %s.%s of an old parent although the parent may still be among the item's new parents (%s), and the item is not re-added afterwards: a still-current parent loses the child, so its label updates no longer re-scan the item", fnName(f), pname, childFld.Name(), why))
+		}
+		// drops: direct deletes or calls that can delete, related to a parent taken from a list
+		allInstrs(f, false, func(fn *ssa.Function, in ssa.Instruction) {
+			var args []ssa.Value
+			what := ""
+			if dc, ok := isRegDelete(in); ok {
+				args, what = dc.Args[1:], "delete("+regFld.Name()+", ..)"
+			} else if ci, ok := in.(ssa.CallInstruction); ok && dropsVia(calleeFn(ci.Common()), 1) {
+				args, what = ci.Common().Args, fnName(calleeFn(ci.Common()))+"(..)"
+			} else {
+				return
+			}
+			var par ssa.Value
+			for _, a := range args {
+				if pr := proj(a); pr != nil && !newLists[pr.list] {
+					par = pr.elem
+				}
+			}
+			if par == nil {
+				return // not about a parent taken from an old-parent list
+			}
+			nDrop++
+			key := rule + "/drop/" + fnName(f)
+			site := p.Pos(in.Pos())
+			if len(adds) == 0 {
+				c.Ok(key, site, "%s only unregisters the item (no parent list is registered in the same function)", fnName(f))
+				return
+			}
+			gv, why := notAmongNew(in, par)
+			g := gv == "ok"
+			after := false
+			for _, a := range adds {
+				if before(a.cs.Instr, in) {
+					after = true
+				}
+			}
+			if !g && !after && gv == "unknown" {
+				c.Undecided(key, site, "%s calls %s for an old parent: %s", fnName(f), what, why)
+				return
+			}
+			c.Check(g || after, key, site,
+				fmt.Sprintf("%s for an old parent only when it is not among the new parents (guard: %v) or after the item was added to all new parents (%v)", what, g, after),
+				fmt.Sprintf("%s calls %s for an old parent that may still be among the item's new parents (%s), before the item is (re-)added to them: a still-current parent without labels and with this single child is dropped from %s while the item keeps pointing at the orphaned object, so labels that arrive later land on a fresh object and are never inherited", fnName(f), what, why, regFld.Name()))
+		})
+	}
+	if nUnreg == 0 {
+		c.Lost("no %s.%s.Discard in felix/labelindex", pname, childFld.Name())
+	}
+	if nDrop == 0 {
+		c.Lost("no registry drop for a parent taken from an old-parent list in felix/labelindex")
+	}
+
+	// ---- refs: what an item's parent list is made of
+	var fromRegistry func(v ssa.Value, depth int) (bool, string)
+	fromRegistry = func(v ssa.Value, depth int) (bool, string) {
+		for _, o := range origins(v, nil) {
+			switch x := o.V.(type) {
+			case *ssa.Lookup:
+				if fieldVar(x.X) != regFld {
+					return false, "a lookup in " + path(x.X)
+				}
+			case *ssa.Alloc:
+				stored := false
+				for _, r := range *x.Referrers() {
+					if mu, ok := r.(*ssa.MapUpdate); ok && mu.Value == ssa.Value(x) && fieldVar(mu.Map) == regFld {
+						stored = true
+					}
+				}
+				if !stored {
+					return false, "a fresh " + pname + " that is not stored into " + regFld.Name()
+				}
+			case *ssa.Call:
+				sf := calleeFn(x.Common())
+				if sf == nil || sf.Blocks == nil || depth >= 2 {
+					return false, "the result of " + path(x)
+				}
+				for _, ret := range returnsOf(sf) {
+					if len(ret.Results) != 1 {
+						return false, "the result of " + path(x)
+					}
+					if ok, why := fromRegistry(ret.Results[0], depth+1); !ok {
+						return false, fnName(sf) + " returning " + why
+					}
+				}
+			case *ssa.Const:
+				if !isNilConst(x) {
+					return false, "a constant"
+				}
+			default:
+				return false, path(o.V)
+			}
+		}
+		return true, ""
+	}
+	nRefs := 0
+	for _, f := range funcs {
+		allInstrs(f, false, func(fn *ssa.Function, in ssa.Instruction) {
+			st, ok := in.(*ssa.Store)
+			if !ok {
+				return
+			}
+			fa, ok := st.Addr.(*ssa.FieldAddr)
+			if !ok || structField(fa.X.Type(), fa.Field) != parentsFld || isNilConst(st.Val) {
+				return
+			}
+			nRefs++
+			key := rule + "/refs/" + fnName(fn)
+			site := p.Pos(in.Pos())
+			// the stored slice: a make([]*P) filled element-wise, or appends
+			var elems []ssa.Value
+			bad := ""
+			for _, o := range origins(st.Val, nil) {
+				ms, ok := o.V.(*ssa.MakeSlice)
+				if !ok {
+					bad = "the list is " + path(o.V) + ", not a slice built in this function"
+					break
+				}
+				for _, r := range *ms.Referrers() {
+					switch x := r.(type) {
+					case *ssa.IndexAddr:
+						for _, rr := range *x.Referrers() {
+							if s2, ok := rr.(*ssa.Store); ok && s2.Addr == ssa.Value(x) {
+								elems = append(elems, s2.Val)
+							}
+						}
+					case *ssa.Store, *ssa.DebugRef:
+					default:
+						if _, isCall := r.(ssa.CallInstruction); isCall {
+							bad = "the list is handed to " + path(r.(ssa.Value)) + " before being stored"
+						}
+					}
+				}
+			}
+			if bad != "" {
+				c.Undecided(key, site, "%s stores %s.%s: %s", fnName(fn), "item", parentsFld.Name(), bad)
+				return
+			}
+			why := ""
+			for _, e := range elems {
+				if ok, w := fromRegistry(e, 0); !ok {
+					why = w
+				}
+			}
+			c.Check(len(elems) > 0 && why == "", key, site,
+				fmt.Sprintf("every element of the item's %s comes from %s (lookup or get-or-create)", parentsFld.Name(), regFld.Name()),
+				fmt.Sprintf("%s puts %s into the item's %s: the item would reference a %s object other than the one registered in %s, which is the one that receives the parent's label updates", fnName(fn), why, parentsFld.Name(), pname, regFld.Name()))
+		})
+	}
+	if nRefs == 0 {
+		c.Lost("no store to the item's %s in felix/labelindex", parentsFld.Name())
+	}
+}
+
+// ------------------------------------------------------ And/Or combination --
+//
+// c07Combine decides, for every Node type that holds a list of operand Nodes,
+// that its LabelRestrictions never keeps a restriction its operands do not
+// justify.  The type's Evaluate tells whether it is a disjunction (returns true
+// as soon as one operand is true) or a conjunction.  The body of the loop that
+// merges one operand's restrictions into the accumulated map is executed
+// symbolically on every path; the fields of the two entries being merged
+// (accumulated, operand) are the atoms.  For every entry written back (or left
+// in place) and every field of LabelRestriction:
+//
+//	disjunction: a bool restriction may be set only if BOTH entries have it; a
+//	             value list may be non-nil only if both lists are non-nil, and
+//	             must be computed from both;
+//	conjunction: a bool restriction may be set only if one of the entries has
+//	             it; a value list is one of the two lists or computed from them.
+//
+// Fields are enumerated from the struct, so a new field is covered (a bool that
+// an Or merely carries over from its first operand is reported).
+type c07Sym struct {
+	kind   string                // "bool" | "slice" | "struct" | "unknown"
+	b      func(env uint32) bool // bool: value
+	nonNil func(env uint32) bool // slice: may be non-nil
+	deps   uint32                // slice: atoms of the lists it is computed from
+	exact  bool                  // slice: is exactly nil / one atom list (not a call result)
+	fields []c07Sym              // struct
+	desc   string
+}
+
+func c07Unknown() c07Sym { return c07Sym{kind: "unknown", desc: "?"} }
+
+type c07Comb struct {
+	fn     *ssa.Function
+	st     *types.Struct // LabelRestriction
+	nf     int
+	result map[ssa.Value]bool // the accumulated (returned) maps
+	key    ssa.Value          // the key of the entries being merged
+	disj   bool
+	// per path
+	allocs  map[*ssa.Alloc][]c07Sym
+	vals    map[ssa.Value]c07Sym
+	pred    map[*ssa.BasicBlock]*ssa.BasicBlock
+	conds   []func(env uint32) bool
+	trail   []string
+	problem string
+}
+
+func (cb *c07Comb) atom(entry, field int) uint32 { return 1 << uint(entry*cb.nf+field) }
+
+func (cb *c07Comb) entrySym(entry int) c07Sym {
+	who := [...]string{"accumulated", "operand"}[entry]
+	s := c07Sym{kind: "struct", desc: who}
+	for i := 0; i < cb.nf; i++ {
+		a := cb.atom(entry, i)
+		name := who + "." + cb.st.Field(i).Name()
+		switch t := cb.st.Field(i).Type().Underlying().(type) {
+		case *types.Basic:
+			if t.Info()&types.IsBoolean != 0 {
+				s.fields = append(s.fields, c07Sym{kind: "bool", b: func(env uint32) bool { return env&a != 0 }, desc: name})
+				continue
+			}
+			s.fields = append(s.fields, c07Unknown())
+		case *types.Slice:
+			s.fields = append(s.fields, c07Sym{kind: "slice", nonNil: func(env uint32) bool { return env&a != 0 }, deps: a, exact: true, desc: name})
+		default:
+			s.fields = append(s.fields, c07Unknown())
+		}
+	}
+	return s
+}
+
+func (cb *c07Comb) zeroSym() c07Sym {
+	s := c07Sym{kind: "struct", desc: "zero"}
+	for i := 0; i < cb.nf; i++ {
+		switch t := cb.st.Field(i).Type().Underlying().(type) {
+		case *types.Basic:
+			if t.Info()&types.IsBoolean != 0 {
+				s.fields = append(s.fields, c07Sym{kind: "bool", b: func(uint32) bool { return false }, desc: "false"})
+				continue
+			}
+			s.fields = append(s.fields, c07Unknown())
+		case *types.Slice:
+			s.fields = append(s.fields, c07Sym{kind: "slice", nonNil: func(uint32) bool { return false }, exact: true, desc: "nil"})
+		default:
+			s.fields = append(s.fields, c07Unknown())
+		}
+	}
+	return s
+}
+
+func (cb *c07Comb) isRestr(t types.Type) bool {
+	if p, ok := t.Underlying().(*types.Pointer); ok {
+		t = p.Elem()
+	}
+	return types.Identical(t.Underlying(), cb.st) && namedTypeName(t) == "LabelRestriction"
+}
+
+// classifyMap: 0 = accumulated, 1 = an operand's restrictions, -1 = something else.
+func (cb *c07Comb) classifyMap(m ssa.Value) int {
+	if cb.result[m] {
+		return 0
+	}
+	if call, ok := m.(*ssa.Call); ok && call.Common().IsInvoke() && call.Common().Method.Name() == "LabelRestrictions" {
+		return 1
+	}
+	return -1
+}
+
+func (cb *c07Comb) eval(v ssa.Value) c07Sym {
+	if s, ok := cb.vals[v]; ok {
+		return s
+	}
+	switch x := v.(type) {
+	case *ssa.Const:
+		if x.Value == nil {
+			if _, ok := x.Type().Underlying().(*types.Slice); ok {
+				return c07Sym{kind: "slice", nonNil: func(uint32) bool { return false }, exact: true, desc: "nil"}
+			}
+			if cb.isRestr(x.Type()) {
+				return cb.zeroSym()
+			}
+			return c07Unknown()
+		}
+		if x.Value.Kind() == constant.Bool {
+			b := constant.BoolVal(x.Value)
+			return c07Sym{kind: "bool", b: func(uint32) bool { return b }, desc: fmt.Sprint(b)}
+		}
+	case *ssa.Phi:
+		if pb, ok := cb.pred[x.Block()]; ok {
+			for k, q := range x.Block().Preds {
+				if q == pb {
+					return cb.eval(x.Edges[k])
+				}
+			}
+		}
+	case *ssa.UnOp:
+		if x.Op == token.NOT {
+			s := cb.eval(x.X)
+			if s.kind == "bool" {
+				f := s.b
+				return c07Sym{kind: "bool", b: func(env uint32) bool { return !f(env) }, desc: "!" + s.desc}
+			}
+		}
+	case *ssa.BinOp:
+		l, r := cb.eval(x.X), cb.eval(x.Y)
+		switch {
+		case l.kind == "bool" && r.kind == "bool":
+			lf, rf := l.b, r.b
+			var f func(env uint32) bool
+			switch x.Op {
+			case token.EQL:
+				f = func(env uint32) bool { return lf(env) == rf(env) }
+			case token.NEQ, token.XOR:
+				f = func(env uint32) bool { return lf(env) != rf(env) }
+			case token.AND:
+				f = func(env uint32) bool { return lf(env) && rf(env) }
+			case token.OR:
+				f = func(env uint32) bool { return lf(env) || rf(env) }
+			}
+			if f != nil {
+				return c07Sym{kind: "bool", b: f, desc: "(" + l.desc + " " + x.Op.String() + " " + r.desc + ")"}
+			}
+		case l.kind == "slice" && r.kind == "slice" && (x.Op == token.EQL || x.Op == token.NEQ):
+			// comparison with nil (the only comparison Go allows on slices)
+			o := l
+			if isNilConst(x.X) {
+				o = r
+			} else if !isNilConst(x.Y) {
+				break
+			}
+			if !o.exact {
+				break // nil-ness of a computed list is not known
+			}
+			nn := o.nonNil
+			eq := x.Op == token.EQL
+			return c07Sym{kind: "bool", b: func(env uint32) bool { return nn(env) != eq }, desc: "(" + o.desc + " " + x.Op.String() + " nil)"}
+		}
+	case *ssa.Field:
+		s := cb.eval(x.X)
+		if s.kind == "struct" && x.Field < len(s.fields) {
+			return s.fields[x.Field]
+		}
+	case *ssa.Lookup:
+		if cb.isRestr(x.Type()) && !x.CommaOk && x.Index == cb.key {
+			if e := cb.classifyMap(x.X); e >= 0 {
+				return cb.entrySym(e)
+			}
+		}
+	case *ssa.Extract:
+		if lk, ok := x.Tuple.(*ssa.Lookup); ok && lk.CommaOk && x.Index == 0 && cb.isRestr(x.Type()) && lk.Index == cb.key {
+			// v, ok := m[k]: v is the entry, or the zero value when absent (all atoms false)
+			if e := cb.classifyMap(lk.X); e >= 0 {
+				return cb.entrySym(e)
+			}
+		}
+		if nx, ok := x.Tuple.(*ssa.Next); ok && x.Index == 2 && cb.isRestr(x.Type()) {
+			if rg, ok := nx.Iter.(*ssa.Range); ok {
+				if k, ok := cb.key.(*ssa.Extract); ok && k.Tuple == x.Tuple {
+					if e := cb.classifyMap(rg.X); e >= 0 {
+						return cb.entrySym(e)
+					}
+				}
+			}
+		}
+	case *ssa.Call:
+		// a list computed from other lists
+		if _, ok := x.Type().Underlying().(*types.Slice); ok && !x.Common().IsInvoke() {
+			s := c07Sym{kind: "slice", nonNil: func(uint32) bool { return true }, desc: path(x)}
+			okArgs := len(x.Common().Args) > 0
+			for _, a := range x.Common().Args {
+				as := cb.eval(a)
+				if as.kind != "slice" {
+					okArgs = false
+				}
+				s.deps |= as.deps
+			}
+			if okArgs {
+				return s
+			}
+		}
+	}
+	return c07Unknown()
+}
+
+// step executes one instruction of the merge loop's body.
+func (cb *c07Comb) step(in ssa.Instruction) {
+	switch x := in.(type) {
+	case *ssa.Alloc:
+		if cb.isRestr(x.Type()) {
+			cb.allocs[x] = cb.zeroSym().fields
+		}
+	case *ssa.Store:
+		switch a := x.Addr.(type) {
+		case *ssa.Alloc:
+			if _, ok := cb.allocs[a]; ok || cb.isRestr(a.Type()) {
+				s := cb.eval(x.Val)
+				if s.kind == "struct" {
+					cb.allocs[a] = append([]c07Sym(nil), s.fields...)
+				} else {
+					fs := make([]c07Sym, cb.nf)
+					for i := range fs {
+						fs[i] = c07Unknown()
+					}
+					cb.allocs[a] = fs
+				}
+			}
+		case *ssa.FieldAddr:
+			if al, ok := a.X.(*ssa.Alloc); ok {
+				if fs, ok := cb.allocs[al]; ok && a.Field < len(fs) {
+					nfs := append([]c07Sym(nil), fs...)
+					nfs[a.Field] = cb.eval(x.Val)
+					cb.allocs[al] = nfs
+				}
+			}
+		}
+	case *ssa.UnOp:
+		if x.Op != token.MUL {
+			return
+		}
+		switch a := x.X.(type) {
+		case *ssa.Alloc:
+			if fs, ok := cb.allocs[a]; ok {
+				cb.vals[x] = c07Sym{kind: "struct", fields: fs, desc: a.Comment}
+			}
+		case *ssa.FieldAddr:
+			if al, ok := a.X.(*ssa.Alloc); ok {
+				if fs, ok := cb.allocs[al]; ok && a.Field < len(fs) {
+					cb.vals[x] = fs[a.Field]
+				}
+			}
+		}
+	}
+}
+
+// c07CombFinding is one unjustified restriction.
+type c07CombFinding struct {
+	field  int
+	text   string
+	unsure bool
+}
+
+// judge checks a struct that ends up in the accumulated map under the current path condition.
+func (cb *c07Comb) judge(s c07Sym, how string) []c07CombFinding {
+	var out []c07CombFinding
+	if s.kind != "struct" {
+		return []c07CombFinding{{field: -1, unsure: true, text: "the value " + how + " is not understood"}}
+	}
+	nAtoms := uint(2 * cb.nf)
+	for i := 0; i < cb.nf; i++ {
+		f := s.fields[i]
+		name := cb.st.Field(i).Name()
+		if f.kind == "unknown" || (f.kind == "slice" && f.deps&^(cb.atom(0, i)|cb.atom(1, i)) != 0) {
+			out = append(out, c07CombFinding{field: i, unsure: true, text: fmt.Sprintf("%s %s is %s, which is not understood", name, how, f.desc)})
+			continue
+		}
+		ai, oi := cb.atom(0, i), cb.atom(1, i)
+		for env := uint32(0); env < 1<<nAtoms; env++ {
+			sat := true
+			for _, c := range cb.conds {
+				if !c(env) {
+					sat = false
+					break
+				}
+			}
+			if !sat {
+				continue
+			}
+			a, o := env&ai != 0, env&oi != 0
+			set := false
+			if f.kind == "bool" {
+				set = f.b(env)
+			} else {
+				set = f.nonNil(env)
+			}
+			if !set {
+				continue
+			}
+			justified := a || o
+			need := "at least one of the two entries imposes it"
+			if cb.disj {
+				justified = a && o
+				need = "BOTH the accumulated entry and the operand's entry impose it"
+				if f.kind == "slice" && justified && f.deps != ai|oi {
+					justified = false
+					need = "it is computed from both value lists (either operand's values are good enough for a disjunction)"
+				}
+			}
+			if justified {
+				continue
+			}
+			what := "is set"
+			if f.kind == "slice" {
+				what = "is kept non-nil (" + f.desc + ")"
+			}
+			out = append(out, c07CombFinding{field: i, text: fmt.Sprintf("%s %s %s when accumulated.%s=%v and operand.%s=%v%s, but a restriction may be kept only if %s",
+				name, how, what, name, c07Imposed(f.kind, a), name, c07Imposed(f.kind, o), cb.trailText(), need)})
+			break
+		}
+	}
+	return out
+}
+
+func c07Imposed(kind string, b bool) string {
+	if kind == "slice" {
+		if b {
+			return "non-nil"
+		}
+		return "nil"
+	}
+	return fmt.Sprint(b)
+}
+
+func (cb *c07Comb) trailText() string {
+	if len(cb.trail) == 0 {
+		return ""
+	}
+	return " (path: " + strings.Join(cb.trail, ", ") + ")"
+}
+
+// run walks every acyclic path of the loop body that starts at nx (one
+// iteration of `for k, v := range <map>`), judging what is written to the
+// accumulated map; an iteration that writes nothing leaves the accumulated
+// entry in place.
+func (cb *c07Comb) run(nx *ssa.Next, rangedEntry int) []c07CombFinding {
+	var out []c07CombFinding
+	seen := map[string]bool{}
+	add := func(fs []c07CombFinding) {
+		for _, f := range fs {
+			k := fmt.Sprint(f.field, f.unsure, f.text)
+			if !seen[k] {
+				seen[k] = true
+				out = append(out, f)
+			}
+		}
+	}
+	head := nx.Block()
+	var okEx ssa.Value
+	for _, r := range *nx.Referrers() {
+		if ex, ok := r.(*ssa.Extract); ok && ex.Index == 0 {
+			okEx = ex
+		}
+	}
+	ifi, _ := head.Instrs[len(head.Instrs)-1].(*ssa.If)
+	if okEx == nil || ifi == nil || ifi.Cond != okEx {
+		return []c07CombFinding{{field: -1, unsure: true, text: "range loop shape not understood"}}
+	}
+	nPaths := 0
+	onPath := map[*ssa.BasicBlock]bool{head: true}
+	var walk func(b *ssa.BasicBlock, written bool)
+	walk = func(b *ssa.BasicBlock, written bool) {
+		if nPaths > 5000 {
+			return
+		}
+		endIter := func() {
+			nPaths++
+			if !written && rangedEntry == 0 && cb.disj {
+				// the accumulated entry stays as it was
+				add(cb.judge(cb.entrySym(0), "left in the accumulated map unchanged"))
+			}
+		}
+		if b == head {
+			endIter()
+			return
+		}
+		if onPath[b] {
+			add([]c07CombFinding{{field: -1, unsure: true, text: "nested loop in the merge loop body"}})
+			return
+		}
+		onPath[b] = true
+		savedAllocs, savedVals := cb.allocs, cb.vals
+		cb.allocs = map[*ssa.Alloc][]c07Sym{}
+		for k, v := range savedAllocs {
+			cb.allocs[k] = v
+		}
+		cb.vals = map[ssa.Value]c07Sym{}
+		for k, v := range savedVals {
+			cb.vals[k] = v
+		}
+		defer func() { onPath[b] = false; cb.allocs, cb.vals = savedAllocs, savedVals }()
+		for _, in := range b.Instrs {
+			cb.step(in)
+			switch x := in.(type) {
+			case *ssa.MapUpdate:
+				if cb.result[x.Map] {
+					if x.Key != cb.key {
+						add([]c07CombFinding{{field: -1, unsure: true, text: "the accumulated map is written under a key other than the one being merged"}})
+					} else {
+						add(cb.judge(cb.eval(x.Value), "written to the accumulated map"))
+					}
+					written = true
+				}
+			case *ssa.Return:
+				endIter()
+				return
+			default:
+				if dc, ok := isBuiltinCall(in, "delete"); ok && cb.result[dc.Args[0]] && dc.Args[1] == cb.key {
+					written = true
+				}
+			}
+		}
+		follow := func(s *ssa.BasicBlock) {
+			old, had := cb.pred[s]
+			cb.pred[s] = b
+			walk(s, written)
+			if had {
+				cb.pred[s] = old
+			} else {
+				delete(cb.pred, s)
+			}
+		}
+		if bi, ok := b.Instrs[len(b.Instrs)-1].(*ssa.If); ok && len(b.Succs) == 2 {
+			cs := cb.eval(bi.Cond)
+			for k, s := range b.Succs {
+				if cs.kind == "bool" {
+					f, want := cs.b, k == 0
+					cb.conds = append(cb.conds, func(env uint32) bool { return f(env) == want })
+					t := cs.desc
+					if !want {
+						t = "!" + t
+					}
+					cb.trail = append(cb.trail, t)
+				}
+				follow(s)
+				if cs.kind == "bool" {
+					cb.conds = cb.conds[:len(cb.conds)-1]
+					cb.trail = cb.trail[:len(cb.trail)-1]
+				}
+			}
+			return
+		}
+		for _, s := range b.Succs {
+			follow(s)
+		}
+	}
+	cb.pred[head.Succs[0]] = head
+	walk(head.Succs[0], false)
+	if nPaths == 0 || nPaths > 5000 {
+		out = append(out, c07CombFinding{field: -1, unsure: true, text: fmt.Sprintf("merge loop body has %d paths", nPaths)})
 	}
 	return out
 }
